@@ -125,3 +125,52 @@ Definition port_ch_env (e : environ) (preset : list dbobj) : option (list dbobj)
       end
     end
   end.
+
+(* ------------------------------------------------------------------ several databases, and func initDB of package main
+   Every configured database has a state of its own on the server (index = the database the object names; two objects
+   may name the same one).  RotateAll goes through the objects in order; one fault counter over the whole call. *)
+Definition upd (ds : nat -> db) (i : nat) (d : db) : nat -> db := fun j => if Nat.eqb j i then d else ds j.
+
+Section GlueMany.
+Variable parse_duration : string -> option Z.
+
+Fixpoint rotate_all_m (os : list (nat * dbobj)) (f : fault) (ds : nat -> db) : list ocall * bool * (nat -> db) :=
+  match os with
+  | [] => ([], true, ds)
+  | (i, o) :: r =>
+    match config_of parse_duration o with
+    | None => ([], false, ds)
+    | Some cfg =>
+      let '(w, ok) := run cfg f (ds i) in
+      let l := map (render cfg) (rev (w_log w)) in
+      let ds' := upd ds i (w_db w) in
+      if ok then let '(l', ok', ds'') := rotate_all_m r (w_fault w) ds' in ((l ++ l')%list, ok', ds'')
+      else (l, false, ds')
+    end
+  end.
+
+(* the configuration the LAST object naming database i asks for *)
+Fixpoint last_cfg (os : list (nat * dbobj)) (i : nat) : option config :=
+  match os with
+  | [] => None
+  | (j, o) :: r => match last_cfg r i with
+                   | Some c => Some c
+                   | None => if Nat.eqb i j then config_of parse_duration o else None
+                   end
+  end.
+
+(* func initDB(cfg): bVal, err := boolEnv("OMIT_CREATE_TABLES"); panic on error; return if bVal;
+   err = ctrl.Init(cfg, "qryn"); panic on error; err = ctrl.Rotate(cfg, "qryn"); panic on error.
+   boolEnv reads the variable literally named "key".  ctrl.Init (schema and migrations, property C18) is an input:
+   it fails or not.  ctrl.Rotate = maintenance.InitDB for every database (CREATE DATABASE IF NOT EXISTS, no retention
+   statement) and then RotateAll.  Result: did it panic, was ctrl.Init called, the retention statements, the databases. *)
+Definition init_db (e : environ) (init_fails : bool) (os : list (nat * dbobj)) (f : fault) (ds : nat -> db)
+  : bool * bool * list ocall * (nat -> db) :=
+  match bool_env (getenv e "key") with
+  | None => (true, false, [], ds)
+  | Some true => (false, false, [], ds)
+  | Some false =>
+    if init_fails then (true, true, [], ds) else
+    let '(l, ok, ds') := rotate_all_m os f ds in (negb ok, true, l, ds')
+  end.
+End GlueMany.
